@@ -16,6 +16,8 @@ import (
 	"sync/atomic"
 	"testing"
 	"time"
+
+	oidc "github.com/lukaszraczylo/traefikoidc"
 )
 
 type scheduler struct {
@@ -539,6 +541,51 @@ loop:
 	}
 	close(stop)
 	<-hkDone
+	// ---- first visits in parallel: every login redirect's state and nonce are the ones in the cookie of that very response
+	{
+		sm, _ := oidc.NewSessionManager(sessKey, false, oidc.NewLogger("none"))
+		var swg sync.WaitGroup
+		mismatch := make(chan string, 8)
+		visits := T.size(500, 3000)
+		for g := 0; g < 12; g++ {
+			swg.Add(1)
+			go func(g int) {
+				defer swg.Done()
+				defer func() { recover() }()
+				for i := 0; i < visits; i++ {
+					req := httptest.NewRequest("GET", fmt.Sprintf("http://app.test/first/%d/%d", g, i), nil)
+					rec := httptest.NewRecorder()
+					inst.ServeHTTP(rec, req)
+					loc, err := url.Parse(rec.Header().Get("Location"))
+					if rec.Code != 302 || err != nil {
+						continue
+					}
+					back := httptest.NewRequest("GET", "http://app.test/", nil)
+					fj := jar{} // a fresh browser applies the Set-Cookie lines of the response (replace / delete semantics)
+					fj.apply(rec.Header())
+					fj.addTo(back)
+					sd, err := sm.GetSession(back)
+					if err != nil {
+						continue
+					}
+					if st, no := loc.Query().Get("state"), loc.Query().Get("nonce"); st != sd.GetCSRF() || no != sd.GetNonce() || sd.GetIncomingPath() != req.URL.Path {
+						select {
+						case mismatch <- fmt.Sprintf("Location state=%.8s nonce=%.8s, cookie csrf=%.8s nonce=%.8s path=%s (requested %s)", st, no, sd.GetCSRF(), sd.GetNonce(), sd.GetIncomingPath(), req.URL.Path):
+						default:
+						}
+						return
+					}
+				}
+			}(g)
+		}
+		swg.Wait()
+		close(mismatch)
+		for m := range mismatch {
+			T.oracle("C05", "concurrent first visits: the state or nonce of a login redirect is not the one in the cookie of the same response", M{"what": m}, M{"family": "sched", "stress": true})
+			break
+		}
+		T.statN("sched.stress.first-visits", 12*visits)
+	}
 	close(bad)
 	for b := range bad {
 		T.oracle("C05", "concurrent load: "+b, nil, M{"family": "sched", "stress": true})
